@@ -1162,6 +1162,11 @@ func (c *Cluster) gcProxySessions(activeNodes []string) {
 // For example, a remote node is restarted or the cluster is rehashed without the node.
 func (c *Cluster) gcProxySessionsForNode(node string) {
 	n := c.nodes[node]
+	if n == nil {
+		// The leader's list of active nodes may not include this node itself
+		// (c.nodes holds the other nodes only): nothing to collect.
+		return
+	}
 	n.lock.Lock()
 	msess := n.msess
 	n.msess = make(map[string]struct{})
